@@ -149,6 +149,7 @@ class _ScanOrfsBase:
     }
     unroll = 3
     budget_s = 600
+    prove_timeout_s = 60   # wrapped coordinates: modulus by the symbolic record length
     known = {"C15-F1": some_orf_of_exactly_the_minimum_length}
     ensures = {
         "reports-exactly-the-orfs-of-the-three-frames": lambda seq, direction, offset, minimum_length, record_length, result:
